@@ -413,7 +413,20 @@ class Extractor:
 
         def fm(m):
             self.rewrites.append(f"{what}: R3 format!")
-            return "verif_io::opaque_string()"
+            # the text is opaque, but the arguments are still EVALUATED (borrowed), so an overflow / index / underflow inside an
+            # argument expression is an obligation of the function like anywhere else.  Not evaluated: slices of the source text (R9)
+            am = re.match(r'\s*r?#*"(?:[^"\\]|\\.)*"#*\s*(?:,(.*))?$', m.group(2), re.S)
+            ev = []
+            if am and am.group(1):
+                for a in split_top(am.group(1)):
+                    a = a.strip()
+                    if not a or re.fullmatch(r"[\w.]+", a) or re.search(r"\[[^\]]*\.\.[^\]]*\]", a) or re.match(r"\w+\s*=[^=]", a):
+                        continue        # a plain variable / field has nothing to evaluate; source slices are R9; named arguments are left alone
+                    ev.append(a)
+            if not ev:
+                return "verif_io::opaque_string()"
+            self.rewrites.append(f"{what}: R3 {len(ev)} format argument expression(s) still evaluated")
+            return "{ " + " ".join(f"let _ = &({a});" for a in ev) + " verif_io::opaque_string() }"
         body = replace_macro(body, ("format",), fm)
         # R13: `for (i, v) in <place>.iter().enumerate() {` -> `for i in 0..<place>.len() { let v = &<place>[i];`
         # (Verus has no spec for the Enumerate adaptor).  <place> is a path of fields of a parameter; the original loop
